@@ -154,6 +154,11 @@ def _parse_into(unit, path, seen, assumed):
                 unit.entries.append(('prelude', f))
         elif tag == '@raw-file':
             unit.entries.append(('raw-file', rest_nc.strip()))
+        elif tag == '@expect':
+            # @expect <file> :: <text>  -- the (whitespace-normalised) text must occur in that file of the current tree, else the anchor is lost:
+            # ties a hand-expanded stand-in (e.g. of a macro_rules body) to the source it stands for, on every run
+            file, text = [x.strip() for x in rest_nc.split('::', 1)]
+            unit.entries.append(('expect', file, text))
         elif tag == '@prelude-if':
             feat, f = rest_nc.split()
             unit.entries.append(('prelude-if', feat, f))
@@ -1180,6 +1185,14 @@ def generate(spec_path, repo, features, known_off=False, canary=None):
                 path = os.path.join(os.path.dirname(os.path.abspath(spec_path)), e[2])
                 body.append('// ---- prelude %s (feature %s) ----\n' % (e[2], e[1]) + expand_macros(open(path).read(), DEFINES) + '\n')
                 preludes.append(e[2])
+        elif e[0] == 'expect':
+            try:
+                have = re.sub(r'\s+', ' ', open(os.path.join(repo, e[1])).read())
+            except OSError:
+                raise AnchorLost('@expect: %s not found' % e[1])
+            if re.sub(r'\s+', ' ', e[2]) not in have:
+                raise AnchorLost('@expect: `%s` no longer occurs in %s (a stand-in in the prelude mirrors that text)' % (e[2], e[1]))
+            body.append('// ---- expect (checked): %s contains `%s`\n' % (e[1], e[2]))
         elif e[0] == 'raw-file':
             # text produced at run time (macro output of the current tree, transformed by tools/glue.py)
             body.append('// ---- raw-file %s ----\n' % e[1] + open(os.path.join(VERIF, e[1])).read() + '\n')
